@@ -162,6 +162,25 @@ mod sel {
         ran(&format!("hx_select_e2e::sel::shape::{}::{N}", T::TAG))
     }
 
+    // Argument lists with equal labels: the same value twice, and distinct
+    // values whose Display is lossy. Every slot is a case of its own.
+    #[divan::bench(args = [7, 8, 7])]
+    fn dup_args(n: u32) {
+        ran(&format!("hx_select_e2e::sel::dup_args::{n}"))
+    }
+
+    pub struct Lossy(pub u32);
+    impl std::fmt::Display for Lossy {
+        fn fmt(&self, f: &mut std::fmt::Formatter<'_>) -> std::fmt::Result {
+            write!(f, "{}", self.0 / 10)
+        }
+    }
+
+    #[divan::bench(args = [Lossy(10), Lossy(25), Lossy(11), Lossy(12)])]
+    fn lossy(x: &Lossy) {
+        ran(&format!("hx_select_e2e::sel::lossy::{x}"))
+    }
+
     pub mod alpha {
         use super::ran;
 
@@ -408,6 +427,59 @@ mod opt {
         fn read() {
             ran("hx_select_e2e::opt::io::read")
         }
+    }
+
+    // A function and a same-named group module with several benchmarks, in
+    // both declaration orders: every benchmark of the module is below the
+    // module's group.
+    #[divan::bench(sample_count = 1, sample_size = 1)]
+    fn sort() {
+        ran("hx_select_e2e::opt::sort")
+    }
+
+    #[divan::bench_group(sample_count = 5, sample_size = 2)]
+    pub mod sort {
+        use super::ran;
+
+        #[divan::bench]
+        fn a() {
+            ran("hx_select_e2e::opt::sort::a")
+        }
+
+        #[divan::bench]
+        fn b() {
+            ran("hx_select_e2e::opt::sort::b")
+        }
+
+        #[divan::bench(sample_size = 3)]
+        fn c() {
+            ran("hx_select_e2e::opt::sort::c")
+        }
+    }
+
+    #[divan::bench_group(sample_count = 6, sample_size = 1, threads = [1, 2])]
+    pub mod tros {
+        use super::ran;
+
+        #[divan::bench]
+        fn a() {
+            ran("hx_select_e2e::opt::tros::a")
+        }
+
+        #[divan::bench]
+        fn b() {
+            ran("hx_select_e2e::opt::tros::b")
+        }
+
+        #[divan::bench(threads = 1)]
+        fn c() {
+            ran("hx_select_e2e::opt::tros::c")
+        }
+    }
+
+    #[divan::bench(sample_count = 2, sample_size = 2)]
+    fn tros() {
+        ran("hx_select_e2e::opt::tros")
     }
 
     #[divan::bench_group(sample_count = 4, sample_size = 2)]
